@@ -1,6 +1,7 @@
 package main
 
 import (
+	"reflect"
 	"fmt"
 	"sort"
 	"strconv"
@@ -29,6 +30,14 @@ func unitMore(c *unitCase, s []string) string {
 		return okErr(hexs(v), err)
 	case "quoteif":
 		return hexs(flags.VerifQuoteIfNeeded(s[0]))
+	case "convert":
+		// go-flags' own convert() on one scalar: s = [text, kind, raw tag]
+		tp := kindType(s[1])
+		v := reflect.New(tp).Elem()
+		if err := flags.VerifConvert(s[0], v, s[2]); err != nil {
+			return "ERR"
+		}
+		return "OK:" + renderValue(v, &TypeSpec{K: s[1]})
 	case "parseint":
 		v, err := strconv.ParseInt(s[0], int(c.N[0]), int(c.N[1]))
 		return okErr(fmt.Sprintf("%d", v), err)
